@@ -806,6 +806,14 @@ func (g *Gen) ProposalVote() txgen.Tx {
 	return g.note(tx)
 }
 
+// voteTx builds a correctly signed vote of validator v on proposal p.
+func (g *Gen) voteTx(p *PropInfo, v *sim.Val, op int) txgen.Tx {
+	w := g.W
+	tx := txgen.ProposalVote(p.ID, v.Stake.Addr, v.Key.Addr, governance.VoteOpinion(op), w.Fee, w.Memo(), v.Stake, v.Key)
+	tx.Tags = []string{"vote-burst"}
+	return tx
+}
+
 func (g *Gen) ProposalWithdrawFunds() txgen.Tx {
 	w := g.W
 	p := g.pickProp("prop")
